@@ -233,10 +233,13 @@ impl DeclarationsGraph {
     /// derivation and containment.
     fn id_in_reference_cycle(&self) -> Option<&Id> {
         let mut references: StableDiGraph<(), (), u32> = StableDiGraph::new();
-        let nodes: HashMap<NodeIndex, NodeIndex> = self
-            .index_to_id
-            .keys()
-            .map(|index| (*index, references.add_node(())))
+        // In the order the nodes were created so that the declaration that is
+        // reported does not depend on the iteration order of a hash map.
+        let mut indices: Vec<NodeIndex> = self.index_to_id.keys().copied().collect();
+        indices.sort();
+        let nodes: HashMap<NodeIndex, NodeIndex> = indices
+            .into_iter()
+            .map(|index| (index, references.add_node(())))
             .collect();
         let mut originals: HashMap<NodeIndex, NodeIndex> = HashMap::new();
         for (original, node) in &nodes {
